@@ -1,4 +1,157 @@
-import ScryerModel.Model.Embed
+import ScryerModel.Proofs.Embed
+/-!
+C28 — Embedded queries return faithful answers across a query history.
+
+Model: `Model/Embed.lean` (`runQuery` / `next` / `drop` / `consume` / `runHistory` mirror
+`Machine::run_query`, `QueryState::next`, `Drop for QueryState` of `src/machine/lib_machine/mod.rs`;
+`Cfg.repaired` is the code at /repo HEAD, the two switches give the code before repairs 21076e6 and
+a78529e). Specification: `meaning g d` — the depth-first course of query `g` started in database
+`d`, judged on its own — with `Script.stream` (what a caller sees), `Script.dbAt` (database after
+`k` items). All theorems are for every database type, every query (or-tree with database updates),
+every residual stack below the stub, every history and every consumed prefix.
+-/
 namespace Scryer.Embed
-theorem C28_placeholder : (1 : Nat) = 1 := rfl
+
+variable {δ : Type}
+
+/-- **One query, any prefix, any machine.** On a machine with no pending ball — whatever frames
+    earlier activity left on the stack — asking a query for up to `k` items and dropping the
+    iterator delivers exactly the first `k` items of the query's stand-alone stream; afterwards the
+    stack is what it was before `run_query` (stub and the query's choice points gone), no ball is
+    pending, and the database is the one the stand-alone run reaches after `k` items. -/
+theorem C28_query_faithful (m : Mach δ) (hb : m.ball = none) (g : Query δ) (k : Nat) :
+    runOne .repaired m g k =
+      ((meaning g m.db).stream.take k,
+       { stack := m.stack, ball := none, db := (meaning g m.db).dbAt k m.db }) := by
+  unfold runOne meaning
+  exact consume_resumable .repaired rfl rfl k _ _ m.stack (g m.db) [] m.db (resumable_start m hb (g m.db))
+
+/-- **Histories.** For every history (each query consumed fully, partially, not at all, ending in
+    an exception or not) the items delivered for each query are those of the specification
+    `specHistory` — each query judged on its own from the database its predecessors left — and the
+    machine ends with its original stack, no ball, and the specified database. -/
+theorem C28_history_faithful (m : Mach δ) (hb : m.ball = none) (h : List (Query δ × Nat)) :
+    runHistory .repaired m h =
+      ((specHistory m.db h).1, { stack := m.stack, ball := none, db := (specHistory m.db h).2 }) := by
+  induction h generalizing m with
+  | nil => cases m; simp_all [runHistory, specHistory]
+  | cons qk rest ih =>
+    obtain ⟨g, k⟩ := qk
+    simp only [runHistory, specHistory, C28_query_faithful m hb g k]
+    rw [ih _ rfl]
+
+/-- the same history where every query runs on a machine of its own, created fresh with the
+    database the previous (isolated) query left. -/
+def isoHistory : δ → List (Query δ × Nat) → List (List Item)
+  | _, [] => []
+  | d, (g, k) :: rest =>
+    let r := runOne .repaired (Mach.fresh d) g k
+    r.1 :: isoHistory r.2.db rest
+
+/-- **History independence.** The items of the i-th query of a history on one machine equal the
+    items the same query delivers on a FRESH machine holding the same database. -/
+theorem C28_history_independence (m : Mach δ) (hb : m.ball = none) (h : List (Query δ × Nat)) :
+    (runHistory .repaired m h).1 = isoHistory m.db h := by
+  induction h generalizing m with
+  | nil => simp [runHistory, isoHistory]
+  | cons qk rest ih =>
+    obtain ⟨g, k⟩ := qk
+    have hf := C28_query_faithful (Mach.fresh m.db) rfl g k
+    simp only [runHistory, isoHistory, C28_query_faithful m hb g k, hf, Mach.fresh]
+    rw [ih _ rfl]
+
+/-- **The iterator protocol, call by call.** `n` successive `next` calls on a new iterator return
+    the items of the stand-alone stream in order and then `None` for ever (so: the `false` marker or
+    the exception is followed by `None`, never by another item); and after the n-th call — for every
+    n, i.e. after every operation — no ball is pending and the stack is the original stack with
+    this query's stub and choice points on top. -/
+theorem C28_next_protocol (m : Mach δ) (hb : m.ball = none) (g : Query δ) (n : Nat) :
+    let st := runQuery m (g m.db)
+    (pull .repaired n st.2 st.1).1 =
+        (((meaning g m.db).stream.map some) ++ List.replicate n none).take n ∧
+    OpInv m.stack (pull .repaired n st.2 st.1).2.2 :=
+  pull_resumable .repaired rfl n _ _ m.stack (g m.db) [] m.db (resumable_start m hb (g m.db))
+
+/-- **Shape of every stream**: the answers in order, then an ending that is empty (the last answer
+    left no choice point), or the single `false` marker, or a single exception. Hence an exception is
+    reported exactly once and is the last item; `false` occurs at most once and only last. -/
+theorem C28_stream_shape (sc : Script δ) :
+    sc.stream = sc.answers.map Item.answer ++ sc.ending ∧
+    (sc.ending = [] ∨ sc.ending = [.falseEnd] ∨ ∃ b, sc.ending = [.exception b]) :=
+  stream_shape sc
+
+/-- an exception in a stream is its last item and occurs once. -/
+theorem C28_exception_once (sc : Script δ) (b : String) (h : Item.exception b ∈ sc.stream) :
+    sc.stream = sc.answers.map Item.answer ++ [.exception b] ∧
+    sc.stream.count (.exception b) = 1 := by
+  obtain ⟨hs, he⟩ := stream_shape sc
+  have hna : ∀ l : List String, Item.exception b ∉ l.map Item.answer := by
+    intro l; simp
+  have hca : ∀ l : List String, (l.map Item.answer).count (.exception b) = 0 := by
+    intro l; exact List.count_eq_zero.mpr (hna l)
+  rw [hs] at h ⊢
+  rcases he with he | he | ⟨b', he⟩
+  · rw [he] at h; simp at h
+  · rw [he] at h; simp at h
+  · rw [he] at h ⊢
+    have : b' = b := by
+      rcases List.mem_append.mp h with h | h
+      · exact absurd h (hna _)
+      · simpa using h.symm
+    subst this
+    refine ⟨rfl, ?_⟩
+    rw [List.count_append, hca]
+    simp
+
+/-- a query without solutions reports the `false` marker; then the iterator ends. -/
+theorem C28_no_solution (d : δ) : (meaning (fun _ => Search.fail) d).stream = [.falseEnd] := by
+  simp [meaning, go, Script.stream]
+
+/-! ### the two pre-repair mechanisms violate the property -/
+
+/-- **Witness 1 (before 21076e6: the delivered ball is not cleared).** After a query that threw,
+    the next query — which has the single answer `a` — reports the old exception instead. -/
+theorem C28_witness_stale_ball :
+    (runHistory { clearBall := false, discardOnDrop := true } (Mach.fresh ())
+        [(fun _ => Search.exc "b", 1), (fun _ => Search.ans "a", 1)]).1
+      = [[.exception "b"], [.exception "b"]] ∧
+    (specHistory () [(fun _ => Search.exc "b", 1), (fun _ => Search.ans "a", 1)]).1
+      = [[.exception "b"], [.answer "a"]] := by
+  constructor
+  · simp [runHistory, runOne, runQuery, consume, next, dispatch, exec, drop, unwindTo, Mach.fresh,
+      backtrack]
+  · simp [specHistory, meaning, go, Script.stream, Script.dbAt]
+
+/-- **Witness 2 (before a78529e: `Drop` pops one frame only).** Dropping an iterator after its first
+    answer while a choice point is left pops that choice point and leaves the stub (and, with two
+    choice points, one of them as well) on the stack of ANY machine: the state is not restored. -/
+theorem C28_witness_drop (base : List (Frame δ)) (d : δ) (x y z : Search δ) :
+    (runOne { clearBall := true, discardOnDrop := false } { stack := base, ball := none, db := d }
+        (fun _ => .try_ (.ans "a") x) 1).2.stack = Frame.stub :: base ∧
+    (runOne { clearBall := true, discardOnDrop := false } { stack := base, ball := none, db := d }
+        (fun _ => .try_ (.try_ (.ans "a") y) z) 1).2.stack = Frame.cp z :: Frame.stub :: base := by
+  constructor <;>
+  simp [runOne, runQuery, consume, next, dispatch, exec, drop, backtrack]
+
+/-- … whereas the repaired `Drop` restores the stack in that very situation. -/
+theorem C28_witness_drop_repaired (base : List (Frame δ)) (d : δ) (y z : Search δ) :
+    (runOne .repaired { stack := base, ball := none, db := d }
+        (fun _ => .try_ (.try_ (.ans "a") y) z) 1).2.stack = base := by
+  rw [C28_query_faithful _ rfl]
+
+/-! ### non-vacuity -/
+
+/-- the hypothesis `ball = none` holds for a fresh machine and is re-established by every query. -/
+example (d : δ) : (Mach.fresh d).ball = none := rfl
+
+/-- a history exercising full / partial / no consumption, an exception, and a database update whose
+    visibility depends on how far the previous query was driven. -/
+example :
+    (specHistory ([1, 2] : Db)
+      [(Tpl.enumAdd 10 |>.sem, 1), (Tpl.snap.sem, 5), (Tpl.addThrow 7 |>.sem, 0), (Tpl.enumThrow 11 |>.sem, 9)]).1
+      = [[.answer "{X=1,Y=11}"], [.answer "{L=[1,2,11]}"], [],
+         [.answer "{X=1}", .answer "{X=2}", .exception "exception('hit'(11))"]] := by
+  simp [specHistory, meaning, Tpl.sem, alts, go, Script.stream, Script.dbAt, bX, bXY, showList, showInt]
+  decide
+
 end Scryer.Embed
